@@ -225,13 +225,19 @@ def solve_obligation(ob, budget_s, tmpdir, tag):
     return "unknown", "z3-5.1+cvc5-1.0.3", dt, None, smt2
 
 
-def confirm_unsat(ob, budget_s, tmpdir, tag):
-    """Thorough tier: an unsat verdict must be confirmed by the other solver family."""
+def confirm_unsat(ob, budget_s, tmpdir, tag, abstracted=False):
+    """Thorough tier: an unsat verdict must be confirmed by the other solver family (cvc5).  A verdict that came
+    from the string-free abstraction is confirmed on that abstraction (an EUF+LIA problem)."""
     smt2 = os.path.join(tmpdir, f"{tag}.confirm.smt2")
-    s2 = z3.Solver()
-    s2.add(*bm.AXIOMS)
-    s2.add(*ob.pc)
-    s2.add(z3.Not(ob.goal))
+    if abstracted:
+        from . import euf
+
+        s2 = euf.abstraction(list(bm.AXIOMS) + list(ob.pc) + [z3.Not(ob.goal)])
+    else:
+        s2 = z3.Solver()
+        s2.add(*bm.AXIOMS)
+        s2.add(*ob.pc)
+        s2.add(z3.Not(ob.goal))
     with open(smt2, "w") as fh:
         fh.write("(set-logic ALL)\n" + s2.to_smt2())
     try:
@@ -294,7 +300,7 @@ def worker(task):
                    "clause": ob.info.get("clause", "") + (f" [raised at {ob.info['where'][0]} line {ob.info['where'][1]}]" if ob.info.get("where") else ""),
                    "raised": ob.info.get("raised")}
             if tier == "thorough" and status == "unsat" and solver.startswith("z3") and mutation is None:
-                rec["confirm"] = confirm_unsat(ob, min(budget_s, 10.0), tmpdir, re.sub(r"\W+", "_", name))
+                rec["confirm"] = confirm_unsat(ob, min(budget_s, 10.0), tmpdir, re.sub(r"\W+", "_", name), abstracted=solver.endswith("/euf"))
             if status == "sat":
                 if model is not None:
                     try:
@@ -531,6 +537,7 @@ def main(argv=None):
     solver_time = 0.0
     functions = []
     contract_assumptions = set()
+    confirmations = {}
     lemma_schemas = set()
     assumed_trusted = set()
     inlined = set()
@@ -561,8 +568,11 @@ def main(argv=None):
             solver_time += o["time"]
             by_solver[o["solver"]] = by_solver.get(o["solver"], 0) + 1
             if o["status"] == "unsat":
-                if o.get("confirm") not in (None, "unsat", "unknown", "timeout", ""):
+                if o.get("confirm") == "sat":
                     disagreements.append({"function": key, **o})
+                if "confirm" in o:
+                    k2 = "confirmed_unsat_by_cvc5" if o["confirm"] == "unsat" else "cvc5_gave_no_answer"
+                    confirmations[k2] = confirmations.get(k2, 0) + 1
                 discharged += 1
                 if len(samples) < 12 and o["kind"] not in ("vacuity",):
                     samples.append({"function": key, "obligation": o["name"], "kind": o["kind"], "clause": o["clause"][:160],
@@ -749,6 +759,7 @@ def main(argv=None):
                                  "functools.lru_cache treated as transparent", "logger calls"],
             "known_findings_printed": known_printed,
             "solver_disagreements": disagreements,
+            "second_solver_confirmation": confirmations,
             "engine_notes": sorted(notes),
             "builtin_model_crosscheck": crosscheck,
             "native_sampling_of_verified_contracts": sampling,
